@@ -104,7 +104,16 @@ def spec_eval(case, ents, errs, model):
         for i in g["indices"]:
             group_of[i] = g
     if not model["groups"] and errs != sorted(spec["errors"]):
-        # no batch type involved: the errors are exactly the per-representation errors
+        # no batch type involved: the errors are exactly the per-representation errors (name the first wrong
+        # element when there is one)
+        for i in range(n):
+            if ents[i] != spec["data"][i]:
+                return [(i, "wrong-entity" if ents[i] is not None else "wrong-null", None)]
+        have = set(e[1] for e in errs)
+        for i in range(n):
+            own = model["specElemErrors"][i]
+            if ents[i] is None and own and not any(m in have for m in own):
+                return [(i, "null-without-error", None)]
         return [(-1, "errors-differ", None)]
     for i in range(n):
         g = group_of.get(i)
@@ -168,6 +177,9 @@ def run_variant(ctx, hbin, srv, variant, st):
                        "replay": "the runner of variant %s died while running the generated cases" % variant})
         return
     impl_lines = [l for l in so.split("\n") if l]
+    if len(impl_lines) < len(case_lines) and impl_lines and json.loads(impl_lines[-1]).get("hung"):
+        # the runner stops after three operations that never answered: judge what ran
+        case_lines = case_lines[:len(impl_lines)]
     model_lines = ctx.driver("c20", ["cfg " + cfgj] + ["case " + l for l in case_lines])[1:]
     if len(impl_lines) != len(case_lines) or len(model_lines) != len(case_lines):
         raise RuntimeError("line count mismatch: %d cases, %d impl, %d model" % (len(case_lines), len(impl_lines), len(model_lines)))
@@ -281,7 +293,9 @@ def run(ctx):
     # ---- regenerated facts of the generated federation.go, then the proofs
     first_ok = next((v for v in variants if not isinstance(built[v], Exception)), None)
     ok_extract = first_ok is not None and ctx.extract("FedFacts", arg=os.path.join(vf.GO, "genout", "c20_" + first_ok))
-    proved = ctx.prove(props=["GqlgenVerif.Props.C20", "GqlgenVerif.Props.C20Gen"])
+    # ---- the guards that decide whether an entity type gets resolvers at all (entity.go, buildEntity), regenerated
+    ctx.extract("FedResolvable")
+    proved = ctx.prove(props=["GqlgenVerif.Props.C20", "GqlgenVerif.Props.C20Gen", "GqlgenVerif.Props.C20Res"])
     if not proved:
         ctx.cov["proof_failure"] = ctx.proof_failure
 
@@ -335,7 +349,7 @@ def run(ctx):
     ctx.cov.update({
         "evaluations": st["total"] + tb_total,
         "distinct_nontrivial": len(st["nontriv"]),
-        "rule": "per variant: fixed directed cases; random interleaved lists (length 0-12, 25% damaged representations, random user faults and delays); duplicate-heavy lists; isolation families (fault-free base + one run per representation x {error, panic, nil, malformed requires}); forced completion orders (reverse, forward, straggler, alternate); adversarial batch groups (mixed keys, reshaped result slices, nil elements, malformed member/first member); a malformed stream (85% damaged). Non-trivial = distinct (representations, plan) reaching a branch beyond the fault-free single-type path with an error or a plan entry",
+        "rule": "per variant: fixed directed cases; random interleaved lists (length 0-12, 25% damaged representations, random user faults and delays); duplicate-heavy lists; isolation families (fault-free base + one run per representation x {error, panic, nil, malformed requires}); forced completion orders (reverse, forward, straggler, alternate); failing representations under a slow error presenter; adversarial batch groups (mixed keys, reshaped result slices, nil elements, malformed member/first member); a malformed stream (85% damaged). Non-trivial = distinct (representations, plan) reaching a branch beyond the fault-free single-type path with an error or a plan entry",
         "input_distribution": dict(st["dist"]),
         "variants": st["per_variant"],
         "correspondence_divergences": len(st["divs"]),
@@ -372,6 +386,45 @@ def table_tie(ctx, hbin, st):
                                "derived_from_schema": r.get("derived"), "panic": r.get("panic"), "shape": {"why": "entity-table"},
                                "replay": "go/harness/c20 -mode table: plugin/federation computes another entity table for the probe schema than the schema text says"},
                               no_failing_input=True)
+        elif r["kind"] == "schema":
+            # generated entity schemas (the schema-shape dimension): which types get resolvers
+            st["dist"]["generated-schema:v%d" % r["version"]] += 1
+            real = {e["name"]: e for e in r.get("real") or []}
+            specbad = None
+            for f in r.get("facts") or []:
+                e = real.get(f["name"])
+                nres = len(e["resolvers"]) if e else -1
+                cls = "%s%s/%s/%s" % ("key-only/" if f["keyOnly"] else "", "resolvable:false" if f["anyResolvableOff"] else
+                                      ("resolvable:true" if f["resolvableArgs"] else "no-resolvable-arg"),
+                                      "own-field" if f["ownField"] else "all-external", "resolvers" if nres > 0 else "no-resolver")
+                st["dist"]["entity-shape:v%d/%s" % (r["version"], cls)] += 1
+                # the Spec, directly: a resolvable entity type with a field of its own has one resolver per @key
+                # (else every representation of it is null, "unknown type"); an all-@external type has none
+                if not r.get("panic") and specbad is None:
+                    if f["ownField"] and not f["anyResolvableOff"] and nres != f["keys"]:
+                        specbad = (f, nres, "resolvable-entity-without-resolver" if nres <= 0 else "resolver-count")
+                    elif not f["ownField"] and nres > 0:
+                        specbad = (f, nres, "resolver-for-all-external-entity")
+            if specbad:
+                div += 1
+                st["schema_spec_bad"] = st.get("schema_spec_bad", 0) + 1
+                if st["schema_spec_bad"] <= 2:
+                    f, nres, verdict = specbad
+                    ctx.violation({"kind": "spec-schema", "federation_version": r["version"], "schema": r["schema"], "entity": f["name"],
+                                   "facts": f, "plugin_resolvers": [x["name"] for x in (real.get(f["name"]) or {}).get("resolvers", [])],
+                                   "verdict": verdict, "shape": {"mode": "any", "cause": verdict},
+                                   "replay": "go/harness/c20 -mode table: for the listed schema (federation version %d) plugin/federation gives entity type %s %d resolver(s) for %d @key(s)%s" % (
+                                       r["version"], f["name"], max(nres, 0), f["keys"],
+                                       ": every representation {__typename:%s,...} in _entities is answered null with `unknown type: %s` instead of the entity resolved from it" % (f["name"], f["name"]) if verdict == "resolvable-entity-without-resolver" else "")})
+            elif r.get("panic") or _norm_table(r.get("real")) != _norm_table(r.get("derived")):
+                div += 1
+                st["schema_div"] = st.get("schema_div", 0) + 1
+                if st["schema_div"] <= 2:
+                    ctx.violation({"kind": "correspondence", "what": "entity table of a generated schema", "federation_version": r["version"],
+                                   "schema": r["schema"], "plugin": r.get("real"), "derived_from_schema": r.get("derived"), "panic": r.get("panic"),
+                                   "shape": {"why": "entity-table"},
+                                   "replay": "go/harness/c20 -mode table: plugin/federation computes another entity table for the listed schema than the schema text says"},
+                                  no_failing_input=True)
         else:
             st["dist"]["fieldset"] += 1
             if r.get("panic") or (r.get("out") or []) != (r.get("want") or []):
